@@ -1,6 +1,7 @@
 """C05 - responses are accepted only if addressed to this SP and solicited."""
 import re
-from harness.common import *                               # noqa: F401,F403
+from harness.common import *
+from harness.common import HandOverSec                               # noqa: F401,F403
 from veriflib.boot import Clock
 from veriflib.runner import Cond
 from saml2_tophat import response as R
@@ -73,6 +74,35 @@ def addr(irt: int, scd_irt: int, dest: int, r1: int, r2: int, recip: int,
     return ok, acc | (not need), "accepted=%s exc=%r" % (acc, exc)
 
 
+def attr_response(r1: int, r2: int, expired: bool, recip: int, conv: bool):
+    """Attribute response (answer to an AttributeQuery, synchronous binding): every audience
+    restriction present must name the SP; recipient rule under conversation information."""
+    from saml2_tophat.response import AttributeResponse
+    from veriflib.boot import concrete
+    r1, r2, recip = concrete(r1), concrete(r2), concrete(recip)
+    ck = Clock(1000000)
+    t = ck.stamp(1, 1000000)
+    auds = [a for a in (AUDS[r1], AUDS[r2]) if a is not None]
+    confs = [{"not_on_or_after": ck.stamp(3, 1000600), "in_response_to": REQ_ID, "recipient": RECIPS[recip]}]
+    a = mk_assertion(t, {"not_on_or_after": ck.stamp(2, 999000 if expired else 1000600), "audiences": auds}, None, None, confirmations=confs,
+                     attrs=[saml.Attribute(name="uid", attribute_value=[saml.AttributeValue(text="alice")])])
+    resp = mk_response(t, [a], in_response_to=REQ_ID, destination=None)
+    ar = AttributeResponse(HandOverSec(resp), [], SP_ID, return_addrs=[ACS], timeslack=0, asynchop=False,
+                           conv_info={"remote_addr": "0.0.0.0", "entity_id": SP_ID} if conv else None)
+    ar.allow_unknown_attributes = True
+    acc = False
+    exc = None
+    try:
+        ar.loads("<concrete/>", False)
+        acc = ar.verify() is not None and bool(ar.ava)
+    except Exception as e:
+        exc = e
+    need = AUD_NAMES_ME[r1] & AUD_NAMES_ME[r2] & (not expired) & ((not conv) | RECIP_MINE[recip])
+    perfect = AUD_NAMES_ME[r1] & AUD_NAMES_ME[r2] & (not expired) & RECIP_MINE[recip]
+    ok = ((not acc) | need) & ((not perfect) | acc)
+    return ok, acc | (not need), "accepted=%s exc=%r" % (acc, exc)
+
+
 def dest_string(has_dest: bool, dest: str, irt: int, unsol: bool):
     """Destination is a symbolic string compared by the real code with the SP's endpoint list."""
     acc, exc, ar = _run(irt, 0, dest if has_dest else None, 1, 0, 0, unsol, True, False, False, 0, 0, validate=False)
@@ -106,6 +136,12 @@ CONDITIONS = [
                 "Recipient in {ACS, entity id, foreign, absent, near miss}; Destination from a 6-entry catalogue (own, foreign, absent, own endpoint of "
                 "another binding, upper-cased, extra query); 0-2 AudienceRestrictions from {[SP],[other],[other,SP],[SP padded with whitespace],[SP+'/']}; "
                 "allow_unsolicited; conv_info; destination pattern set/unset (quick: subset of the audience x destination grid)"),
+    Cond(name="attr_response", fn="attr_response",
+         params=[("r1", "int"), ("r2", "int"), ("expired", "bool"), ("recip", "int"), ("conv", "bool")],
+         pre=["0 <= r1 < %d" % len(AUDS), "0 <= r2 < %d" % len(AUDS), "0 <= recip < %d" % len(RECIPS)],
+         partitions={"quick": [{"r1": a} for a in range(len(AUDS))]}, timeout={"quick": 600, "thorough": 900}, path_timeout=60,
+         functions=["response.AttributeResponse (AuthnResponse.loads/verify with context AttrQuery)", "response.for_me", "response.AuthnResponse.condition_ok/get_subject/verify_recipient"],
+         bounds="attribute responses: 0-2 AudienceRestrictions from the 5 shapes, Conditions expired or not, 5 Recipients, conversation information present/absent"),
     Cond(name="dest_string", fn="dest_string",
          params=[("has_dest", "bool"), ("dest", "str"), ("irt", "int"), ("unsol", "bool")],
          pre=["0 <= irt < 3", "len(dest) <= 40"],
